@@ -147,6 +147,24 @@ pub fn all_single_faults(cmd: u8, seed: &Value, obs: &mut Obs) -> CaseResult {
             expect(&format!("wrong-type:{}", mutate::TYPE_PALETTE[t]), d, cmd, &msg_of(cmd, &v), INVALID_CBOR, obs)?;
         }
     }
+    // 6b. stray bytes after the parameter map: whatever the decoder makes of them (the CBOR
+    // decoder ignores trailing data), a rejection must use one of the three codes
+    for tail in [&[0x00u8][..], &[0xFF], &[0x01, 0x02, 0x03], &[0xA0], &[0x00, 0x00, 0x00, 0x00, 0x07]] {
+        let mut m = base.clone();
+        m.extend_from_slice(tail);
+        obs.sub("fault:trailing-bytes", &[b"trailing", &m]);
+        if let Some(st) = c04::status_of(&m) {
+            if st != 0x01 && st != 0x12 && st != 0x14 {
+                let mut payload = vec![0x12];
+                payload.extend_from_slice(&m);
+                return Err(Fail::new(
+                    format!("C05:{}:trailing-bytes:status-outside-set:0x{:02x}", cmd_name(cmd), st),
+                    format!("{} request followed by {} stray byte(s) was rejected with 0x{:02x}, which is none of 0x01/0x12/0x14", cmd_name(cmd), tail.len(), st),
+                    json!({"input_hex": hex(&m)}),
+                ));
+            }
+        }
+    }
     // 7. each bounded member pushed one past its limit
     for b in bounds().iter().filter(|b| b.cmd == cmd && !b.lossy_drop) {
         let Some(node) = mutate::get(&seed, &b.path) else { continue };
@@ -311,7 +329,7 @@ pub fn gens() -> Vec<Gen> {
     vec![G_MC, G_GA, G_CP, G_CM, G_CM41, G_LB, G_CMDBYTE, G_LACKING, G_CONCRETE]
 }
 
-pub const RULE: &str = "Seeds: for every parameter-bearing command the minimal message (no optional member), the full message (every optional member) and proptest-generated well-formed messages from the C01 generator (known members only, canonical). Every seed is crossed with EVERY single fault of each class, enumerated on the value tree / byte string (no sampling within a seed): removal of each required parameter and required nested member -> 0x14; truncation at every byte offset -> 0x12; each key of each map duplicated -> 0x12; each head re-encoded in each wider width -> 0x12; each string/array/map made indefinite-length -> 0x12; each member's value replaced by a representative of every other data type among unsigned/negative/bytes/text/array/map/boolean (sign changes of signed-integer members and null not asserted) -> 0x12; each bounded member one past its limit (documented lossy members excluded) -> 0x12. Plus all 256 command bytes x 4 payload kinds (unassigned/unsupported -> 0x01), and messages lacking a required parameter combined with up to two further structural faults (never accepted; status within the three codes). Every fault case is non-trivial by construction; distinct by (fault class, faulted message bytes). The evaluation count is the number of fault cases executed, not the number of seeds.";
+pub const RULE: &str = "Seeds: for every parameter-bearing command the minimal message (no optional member), the full message (every optional member) and proptest-generated well-formed messages from the C01 generator (known members only, canonical). Every seed is crossed with EVERY single fault of each class, enumerated on the value tree / byte string (no sampling within a seed): removal of each required parameter and required nested member -> 0x14; truncation at every byte offset -> 0x12; each key of each map duplicated -> 0x12; each head re-encoded in each wider width -> 0x12; each string/array/map made indefinite-length -> 0x12; each member's value replaced by a representative of every other data type among unsigned/negative/bytes/text/array/map/boolean (sign changes of signed-integer members and null not asserted) -> 0x12; each bounded member one past its limit (documented lossy members excluded) -> 0x12; stray bytes appended after the parameter map -> if rejected at all, one of the three codes. Plus all 256 command bytes x 4 payload kinds (unassigned/unsupported -> 0x01), and messages lacking a required parameter combined with up to two further structural faults (never accepted; status within the three codes). Every fault case is non-trivial by construction; distinct by (fault class, faulted message bytes). The evaluation count is the number of fault cases executed, not the number of seeds.";
 pub const ASSUMPTIONS: &[&str] = &[
     "required-member and limit tables (reqmodel.rs) transcribe the CTAP specification / the C12 statement",
     "seed messages contain known members only, so every head is interpreted (not skipped) by the decoder",
@@ -352,7 +370,7 @@ pub fn run(ctx: &mut Ctx) {
         "fault:non-minimal:major3", "fault:non-minimal:major4", "fault:non-minimal:major5", "fault:indefinite:major2",
         "fault:indefinite:major3", "fault:indefinite:major4", "fault:indefinite:major5", "fault:wrong-type:unsigned",
         "fault:wrong-type:negative", "fault:wrong-type:bytes", "fault:wrong-type:text", "fault:wrong-type:array",
-        "fault:wrong-type:map", "fault:wrong-type:boolean", "fault:over-limit", "fault:command-byte", "lacking-required",
+        "fault:wrong-type:map", "fault:wrong-type:boolean", "fault:over-limit", "fault:trailing-bytes", "fault:command-byte", "lacking-required",
         "MakeCredential", "GetAssertion", "ClientPin", "CredentialManagement", "CredentialManagement(0x41)", "LargeBlobs",
     ]);
 }
